@@ -1,7 +1,7 @@
 (* C20 — incompatible schema versions are refused; migration preserves every job.
    This file only states theorems; proofs live in SV.C20Proofs.  Models: SV.Discover (gate),
    SV.Migrate (apply_migrations). *)
-From SV Require Import Base Json Discover Migrate CorrC20 C19Proofs C20Proofs.
+From SV Require Import Base Json Discover Migrate CorrC19 PathAlg C19Proofs CorrC20 C20Proofs.
 
 (* ---- never opened ---------------------------------------------------------------------- *)
 Theorem C20_opened_only_supported : forall root cwd p r root', project_open root cwd p = (Ok r, root') ->
@@ -70,13 +70,117 @@ Proof. exact gate_unchanged_get_project. Qed.
 Print Assumptions C20_refusal_touches_nothing.
 
 (* ---- migration --------------------------------------------------------------------------
-   FULL STATEMENT (false of the faithful model, hence not a theorem):
-     forall es c name, legacy_pre es c name -> fst (migrate0 es) = Ok tt /\ <jobs preserved>
-   It is refuted by a legacy project whose configured custom workspace directory was never
-   created (defect F17, signac/migration/v1_to_v2.py:55-66). *)
+   Setting: [world es] is the tree with the project directory at /p whose entries are [es];
+   [migrate0 es] = apply_migrations (world es) "/" "/p".  The theorems hold for EVERY directory
+   content es (any jobs, documents, files, sub-directories); the location /p is fixed (every access
+   of the migration is os.path.join(root_directory, <constant>)).
+
+   [mig_pre es c name]: signac.rc parses to c with project name [name]; no .signac entry; the
+   project document is absent or a JSON object; the v1 cache / history entries are files or absent;
+   the workspace is the default one, or a custom single-component name w whose directory EXISTS
+   and no entry 'workspace' is in the way.
+   [mig_post es c name fin]: in the resulting entries fin the whole workspace node of es (every job
+   directory with state point, document and files, byte for byte) is the entry 'workspace'; signac.rc,
+   the v1 cache and history entries are gone; .signac holds config = {schema_version 2} and the
+   cache / history files with their old bytes; the project document holds signac_project_name iff
+   the name is not the default "None" and keeps all its other keys; every other entry is unchanged.
+
+   FULL STATEMENT (false of the faithful model, hence NOT a theorem):
+     forall es c name, legacy_pre es c name -> fst (migrate0 es) = Ok tt
+   where legacy_pre is mig_pre without "the configured workspace directory exists" (defect F17,
+   signac/migration/v1_to_v2.py:55-66).  Proved instead: the partial theorem under mig_pre, the
+   refutation with a concrete witness, and the exact behaviour on the whole defect class. *)
+Theorem C20_migrate_preserves_jobs_partial : forall es c name, mig_pre es c name ->
+  (cv c = None \/ cv c = Some 0%Z \/ cv c = Some 1%Z) ->
+  exists fin, migrate0 es = (Ok tt, world fin) /\ mig_post es c name fin.
+Proof. exact migrate_preserves_jobs. Qed.
+Print Assumptions C20_migrate_preserves_jobs_partial.
+
+(* the path-level model of _migrate_v1_to_v2 computes exactly the entries-level function *)
+Theorem C20_migration_step_refines : forall es c name, mig_pre es c name ->
+  migrate_v1_to_v2 (world es) CWD0 P0 = (Ok tt, world (mig_entries c name es)).
+Proof. exact mig_refines. Qed.
+Print Assumptions C20_migration_step_refines.
+
+(* the result opens normally (here: with its workspace directory present) and nothing is written *)
+Theorem C20_migrated_project_opens : forall fin cd ws,
+  alookup s_dotsignac fin = Some (Dir cd) ->
+  alookup s_config cd = Some (File (FCfg {| cv := Some 2%Z; cproj := None; cws := None |})) ->
+  alookup s_workspace fin = Some (Dir ws) ->
+  get_project (world fin) CWD0 P0 true = (Ok P0, world fin).
+Proof. exact opens_after. Qed.
+Print Assumptions C20_migrated_project_opens.
+
+(* migrating an up-to-date project is a no-op *)
+Theorem C20_migrate_noop_on_v2 : forall es cd c, alookup s_dotsignac es = Some (Dir cd) ->
+  alookup s_config cd = Some (File (FCfg c)) -> cv c = Some 2%Z ->
+  migrate0 es = (Ok tt, world es).
+Proof. exact migrate_noop_on_v2. Qed.
+Print Assumptions C20_migrate_noop_on_v2.
+
+(* newer schema versions are refused by the migration too, nothing touched (both layouts) *)
+Theorem C20_migrate_newer_refused : forall es cd c v, alookup s_dotsignac es = Some (Dir cd) ->
+  alookup s_config cd = Some (File (FCfg c)) -> cv c = Some v -> (2 < v)%Z ->
+  migrate0 es = (Err ERuntimeError, world es).
+Proof. exact migrate_newer_refused_v2. Qed.
+Print Assumptions C20_migrate_newer_refused.
+
+Theorem C20_migrate_newer_refused_legacy : forall es c name v, alookup s_rc es = Some (File (FCfg c)) ->
+  cproj c = Some name -> alookup s_dotsignac es = None -> cv c = Some v -> (2 < v)%Z ->
+  migrate0 es = (Err ERuntimeError, world es).
+Proof. exact migrate_newer_refused_v1. Qed.
+Print Assumptions C20_migrate_newer_refused_legacy.
+
+(* collision (custom workspace_dir while an entry 'workspace' exists) AND the F17 class (custom
+   workspace_dir that does not exist): RuntimeError; every entry of the project directory is left
+   as it was, except that a version 0 / absent has been bumped to 1 in signac.rc by the completed
+   0->1 step (never to 2: the version is written after each step, not before) *)
+Theorem C20_migrate_collision_or_missing_refused : forall es c name w, fail_pre es c name w ->
+  (cv c = None \/ cv c = Some 0%Z \/ cv c = Some 1%Z) ->
+  migrate0 es = (Err ERuntimeError,
+                 world (match cv c with Some 1%Z => es | _ => aset s_rc (File (FCfg (with_v1 c))) es end)).
+Proof. exact migrate_refused. Qed.
+Print Assumptions C20_migrate_collision_or_missing_refused.
+
+(* F17 refuted with a concrete witness: signac.rc = {schema_version 1, project x, workspace_dir ws},
+   no directory ws.  The migration aborts and the project can still not be opened. *)
 Theorem C20_migrate_missing_custom_workspace_refuted : exists es c name,
   legacy_pre es c name /\
   migrate0 es = (Err ERuntimeError, world es) /\
   fst (get_project (world es) CWD0 P0 true) = Err EIncompatibleSchemaVersion.
 Proof. exact f17_refuted. Qed.
 Print Assumptions C20_migrate_missing_custom_workspace_refuted.
+
+(* ---- model_holds: licence for "implementation agrees with the model on this case => ..."
+   gate: whenever the model refuses Project() / get_project() and the implementation agrees, the
+   implementation raised the same exception class and its byte snapshot is unchanged (with the
+   gate theorems above: IncompatibleSchemaVersion for every declared version <> 2).
+   migration: agreement means the observed outcome and tree ARE the model's, to which the
+   migration theorems apply.  (partial: the decidable oracle holds_C20 itself is evaluated on every
+   observation of every run; a closed proof "mismatch = false -> holds_C20 = true" in general
+   position of the scratch directory is not attempted.) *)
+Theorem C20_model_holds_gate : forall c g e,
+  wf_node (c20_tree c) = true -> agree_g c g = true ->
+  (g_kind g = GProject \/ exists s, g_kind g = GGet s) ->
+  fst (run_g (CorrC20.mkroot (c20_base c) (c20_tree c)) (c20_cwd c) (c20_root c) (g_kind g)) = Err e ->
+  g_res g = Err e /\ g_changed g = false /\ g_post g = None.
+Proof. exact model_holds_gate. Qed.
+Print Assumptions C20_model_holds_gate.
+
+Theorem C20_model_holds_migration : forall c, agree_mig c = true ->
+  let root := CorrC20.mkroot (c20_base c) (c20_tree c) in
+  res_unit_eqb (fst (apply_migrations root (c20_cwd c) (c20_root c))) (c20_mig c) = true /\
+  CorrC20.sub_eqb (snd (apply_migrations root (c20_cwd c) (c20_root c))) (CorrC20.base_comps (c20_base c)) (c20_mig_post c) = true.
+Proof. exact model_holds_migration. Qed.
+Print Assumptions C20_model_holds_migration.
+
+(* ---- non-vacuity ------------------------------------------------------------------------ *)
+Example C20_example_mig_pre_satisfiable : mig_pre ex_es ex_cfg0 [109; 121; 32; 112]%N.
+Proof. exact example_mig_pre. Qed.
+
+Example C20_example_gate : (* a v2-layout project declaring version 3, without workspace directory *)
+  let es := [(s_dotsignac, Dir [(s_config, File (FCfg {| cv := Some 3%Z; cproj := None; cws := None |}))])] in
+  project_open (world es) CWD0 P0 = (Err EIncompatibleSchemaVersion, world es) /\
+  get_project (world es) CWD0 P0 true = (Err EIncompatibleSchemaVersion, world es) /\
+  init_project (world es) CWD0 P0 = (Err EIncompatibleSchemaVersion, world es).
+Proof. vm_compute. repeat split; reflexivity. Qed.
